@@ -734,6 +734,26 @@ func (u *Unit) specCall(x *ast.CallExpr, env *Env, sc *specCtx) Value {
 		}
 		_, un := u.boxFn(SRef)
 		return Value{App(un, SRef, v.Term), types.NewPointer(named)}
+	case "isptr":
+		// isptr(v, TypeName): the dynamic type of the interface value v is *TypeName
+		v := u.sv(x.Args[0], env, sc)
+		tn := x.Args[1].(*ast.Ident).Name
+		var named types.Type
+		for _, p := range u.Prog.Pkgs {
+			if o := p.Types.Scope().Lookup(tn); o != nil {
+				if _, ok := o.(*types.TypeName); ok {
+					named = o.Type()
+					break
+				}
+			}
+		}
+		if named == nil || v.Sort != SVal {
+			unsup("isptr: unknown type or non-interface value")
+		}
+		fn := dynIsName(types.NewPointer(named))
+		u.D.Fun(fn, SBool, SVal)
+		u.isaTyped(fn, v.Term)
+		return Value{App(fn, SBool, v.Term), boolT}
 	case "as", "isa", "impl":
 		// as(x, TypeName): x unboxed as the named struct type; isa(x, TypeName): dynamic type test; impl(x, IfaceName)
 		v := u.sv(x.Args[0], env, sc)
